@@ -51,6 +51,7 @@ func init() {
 		{"listener_close_race", "Listener.Close racing a pending Accept and an in-flight dial", scListenerCloseRace},
 		{"cancel_mid_dial", "context cancellation at a seeded point of DialContext", scCancelMidDial},
 		{"dial_dead", "dial to a service nobody listens on, to an unknown node, and ping failures", scDialDead},
+		{"ping_notice_race", "an unreachable notice for a ping arrives while SendPing returns for another reason (cancelled, answered)", scPingNoticeRace},
 		{"stream_close_kinds", "dial+accept, then every order of Close / CloseConnection on both ends; dialler registry must return to baseline", scStreamCloseKinds},
 	}
 }
@@ -744,4 +745,22 @@ func scStreamCloseKinds(e *b1env) {
 		e.res.Evaluations++
 	}
 	e.closeListener(li)
+}
+
+// scPingNoticeRace: b pings a with 0 hops to live (the packet expires at b itself and b publishes the notice
+// to the ping's own socket) while the caller cancels at a seeded moment around the notice's arrival.
+func scPingNoticeRace(e *b1env) {
+	for it := 0; it < 400; it++ {
+		ctx, cancel := context.WithCancel(context.Background())
+		d := time.Duration(e.rng.Intn(300)) * time.Microsecond
+		go func() { time.Sleep(d); cancel() }()
+		_, _, err := e.b.N.Ping(ctx, "a", 0)
+		cancel()
+		if err != nil && strings.Contains(err.Error(), "cancelled") {
+			e.res.count("ping_cancelled")
+		} else {
+			e.res.count("ping_other")
+		}
+		e.res.Evaluations++
+	}
 }
